@@ -615,7 +615,7 @@ def drive(prop, tier, seed, nshards, budget_s, only=None):
             if p < pooled.get('alpha', 1e-12):
                 v = Violation('%s: %d of %d generated datasets succeed (%.1f%%), required %.0f%%; exact binomial p=%.3g'
                               % (key, ok_, tot_, 100.0 * ok_ / tot_, 100 * pooled['rate'], p), tag='pooled-rate')
-                v.case = {'key': key, 'chunks': merged['tally_cases'][key]}
+                v.case = {'key': key, 'chunks': merged['tally_cases'][key], 'rate': pooled['rate']}
                 path = write_violation(prop, pooled['replay_sub'], v)
                 rec = v.to_json()
                 rec.update({'sub': pooled['replay_sub'], 'replay': path})
